@@ -30,6 +30,9 @@ CORPUS = [  # (cfg, [sources...]) — past crashes and their neighbours; runs fi
     ("-", ["[-9223372036854775807..2]"]), ("-", ["[2..-9223372036854775807]"]), ("-", ["[-9223372036854775807..9223372036854775807]"]), ("-", ["[9223372036854775807..-2]"]),
     ("-", ["x=1; i=0; while x { func f() { 1;2;3; break }; i=i+1; if i > 3 { x = 0 } }"]), ("-", ["while 1 { func f() { break } }"]),
     ("-", ["i=0; while i<3 { i=i+1; func f() { continue }; f() }; i"]), ("-", ["i=0; while i<3 { i=i+1; &c = (1; break) }"]), ("-", ["i=0; while i<3 { i=i+1; &c = i; if c > 1 { break } }; i"]),
+    ("-", ["func g(){ 1; 2; 3; 4; 5; 6; 7; 8; 3d + d优势 }; func f(){ g() }; f()"]), ("-", ["func g(){ 1+1+1+1+1+1+1+1+2d }; &c = g(); c"]),
+    ("-", ["func g(){ 11111111; 22222222; 3d }", "func f(){g()}; f()", "&c = g(); c; c", "`{g()}`"]), ("-", ["func h(){ 'xxxxxxxxxxxxxxxxxxxxxxxx'; d劣势 }; func g(){ h() }; func f(){ g() }; f() + f()"]),
+    ("-", ["&cc = 1; &cc.me = &cc; &cc"]), ("-", ["dd = {}; &c1 = 1; &c2 = 2; &c1.o = &c2; &c2.o = &c1; dd.c = &c1; dd"]), ("-", ["zz = {'k': 1}; &cc = this.x; &cc.x = zz; zz.c = &cc; zz"]),
     ("-", ["func f(){f()}; f()"]), ("-", ["&c = d; c"]), ("-", ["func f(){ 2d }; f()"]), ("-", ["&c = d劣势; c; c"]), ("-", ["func f(){ d优势 + 3d }; f(); f()"]), ("-", ["&c = c; c"]), ("-", ["toStr(toStr)"]), ("-", ["x = {}; x.__proto__ = x; x.q"]),
 ]
 
@@ -73,6 +76,7 @@ def adversarial(r):
         f"&cv = {t} + 1; cv", f"&cv = d({t}); cv.compute()", f"this.w = {t}; this.w", f"^st力量{t}", f"^st力量+{t}", f"^st力量-{t}", f"^st'a b':{t}",
         f"^st力量*{t}:5", f"^st&力量={t}", f"dir({t})", f"typeId({t})", f"repr({t})", f"d{t}", f"{t}d", f"f + {t}", f"{r.randint(1, 30)}d{r.choice([0, 1, 2**31, 2**62, 2**63-1])}",
         f"{r.choice(CONT)} {r.choice(['==', '!=', '<', '>=', '+', '&&', '??'])} {r.choice(CONT)}", f"x={r.choice(CONT)}; y={r.choice(CONT)}; [x==y, y==x, x!=y, [x]==[y], {{'k':x}}=={{'k':y}}]",
+        f"func g(zz){{ {'1; ' * r.randint(0, 12)}{r.choice(['d', '3d', 'd优势', '2d + d劣势'])} }}; func f(){{ g({t}) }}; {r.choice(['f()', '&c = f(); c', '&c = g(1); c + c', '`{f()}`', 'f() + g(2)'])}",
         f"^st力量-{t} 敏捷-={u}", f"^st力量-{t} ? {u} : 1", f"^st力量-0||{t}", f"^st'a'-{t}, b+{u}",
         f"i=0; while i<3 {{ i=i+1; func f(z) {{ {r.choice(['break', 'continue', 'if z { break }', 'while 0 {}; continue', '1; break; 2'])} }}; f({t}) }}; i",
         f"i=0; while i<3 {{ i=i+1; &cv = {r.choice(['(break)', '{t}; break'.replace('{t}', t), 'i'])}; cv }}",
